@@ -16,7 +16,7 @@ ID = "C15"
 LEVEL = "exploration"
 BUDGET = {"quick": (3000, 35), "thorough": (800_000, 540)}
 RULE = ("program shapes {recursion, super() chain, callee exception caught, exception propagating, generator "
-        "suspended/closed, nesting, leaf, configuration emptied while the invocation runs} x 1-3 span/capture tracepoints (method span, line span, method capture, line "
+        "suspended/closed, nesting, leaf, configuration emptied while the invocation runs, agent shut down by the application in the middle of an invocation and started again before the next thread} x 1-3 span/capture tracepoints (method span, line span, method capture, line "
         "capture; fire_count 1 or unlimited) x 1-3 threads each running 1-4 shapes x thread-ident reuse x seeded "
         "schedules; non-trivial = a run with at least one span opened or one snapshot deferred; distinct = distinct "
         "(tracepoints, thread programs, outcome) keys")
@@ -97,9 +97,16 @@ def swapper(tag, out):
     b = 'r' + tag
     return b
 
+def halter(tag, out):
+    a = leaf(tag + 'q', out)  #L:halt_a
+    halt_agent()
+    return 'r' + tag
+
 def drive(shape, tag, out):
     try:
-        if shape == 'swap':
+        if shape == 'halt':
+            v = halter(tag, out)
+        elif shape == 'swap':
             v = swapper(tag, out)
             restore_config()
         elif shape == 'rec':
@@ -129,8 +136,8 @@ def tmain(tid, acts, out):
         drive(shape, 't%d_%d' % (tid, j), out)
 '''
 SHAPES = ("rec", "super", "catch", "pass", "gen", "nest", "leaf", "swap", "hop")
-FUNCS = ("rec", "work", "catcher", "passer", "thrower", "leaf", "usegen", "gen", "nest", "swapper", "hop")
-LINES = ("rec_call", "super_call", "catch_call", "pass_call", "gen_next", "nest_a", "nest_b", "leaf_body", "swap_a", "hop_call")
+FUNCS = ("rec", "work", "catcher", "passer", "thrower", "leaf", "usegen", "gen", "nest", "swapper", "hop", "halter")
+LINES = ("rec_call", "super_call", "catch_call", "pass_call", "gen_next", "nest_a", "nest_b", "leaf_body", "swap_a", "hop_call", "halt_a")
 # recursion that passes through a frame of ANOTHER source file (a decorator, visitor or dispatcher of a library)
 RELAY_SRC = "def relay(fn, *args):\n    res = fn(*args)\n    return res\n"
 GEN_FUNCS = ("gen",)
@@ -168,8 +175,17 @@ def generate(seed, tier):
     threads = [[r.choice(shapes) for _ in range(r.randrange(1, 5))] for _ in range(nthreads)]
     # "build": the tracepoints are built from their arguments (stage, method_name, span ...) by the agent's own
     # build_trigger, as for tracepoints from the service or registered in code; "direct": locations/actions given directly
-    return {"tps": tps, "threads": threads, "sequential": r.random() < 0.4, "via": r.choice(("direct", "build")),
-            "knobs": common.draw_knobs(r, stall_p=0.0, ident_reuse_p=r.choice((0.0, 0.5, 1.0)))}
+    sc = {"tps": tps, "threads": threads, "sequential": r.random() < 0.4, "via": r.choice(("direct", "build")),
+          "knobs": common.draw_knobs(r, stall_p=0.0, ident_reuse_p=r.choice((0.0, 0.5, 1.0)))}
+    if r.random() < 0.12:
+        # the application shuts the agent down in the middle of an invocation that has work pending; the thread ends,
+        # the agent is started again and the next thread (which may get the same ident) runs the same code
+        sc["bounce"] = True
+        sc["sequential"] = True
+        tps[0] = {"id": "tp0", "kind": r.choice(("mspan", "mcap")), "fire_count": "-1", "func": "halter"}
+        sc["threads"] = [["halt"] + threads[0][1:], ["halt"] + (threads[1] if len(threads) > 1 else [])[:2]] + threads[2:]
+        sc["knobs"]["ident_reuse_p"] = r.choice((0.5, 1.0, 1.0))
+    return sc
 
 
 def shrink_candidates(s):
@@ -271,15 +287,30 @@ def execute(s, ch):
         linecache.cache[relay_file] = (len(RELAY_SRC), None, RELAY_SRC.splitlines(True), relay_file)
         relay_g = {"__name__": "simlib.relay"}
         exec(compile(RELAY_SRC, relay_file, "exec"), relay_g)
-        g = p.load({"swap_config": swap_config, "restore_config": restore_config, "relay": relay_g["relay"]})
+        down = {"at": None, "thread": None}
+
+        def halt_agent():
+            if down["at"] is None:
+                k.fault("shutdown_mid_invocation")
+                down["at"] = len(rec.events)
+                down["thread"] = k.me().name
+                w.deep.shutdown()
+        g = p.load({"swap_config": swap_config, "restore_config": restore_config, "relay": relay_g["relay"],
+                    "halt_agent": halt_agent})
         outs = [[] for _ in s["threads"]]
         fns = [lambda ti=ti, acts=acts: g["tmain"](ti + 1, acts, outs[ti]) for ti, acts in enumerate(s["threads"])]
         if s["sequential"]:
             # one thread after the other: a successor may get the ident of a finished thread (scheduler decision)
             for i, fn in enumerate(fns):
                 t = shims.SimThread(target=fn, name="app%d" % i)
+                if down["at"] is not None and not w.deep.started:
+                    # (the successor exists before the agent's own threads do: it is the one that may get the ident)
+                    w.start()
+                    w.handler.new_config(trig)
                 t.start()
                 t.join()
+            if down["at"] is not None and not w.deep.started:
+                w.start()
         else:
             host.run_threads(k, fns)
         common.wait_delivery(k, w, 30)
@@ -316,6 +347,8 @@ def execute(s, ch):
             shape = "%s:%s" % (tp.get("kind"), tp.get("func") or tp.get("line"))
             n_close = len(sp["closes"])
             info["opened"] += 1
+            if n_close == 0 and down["at"] is not None and oth == down["thread"] and oseq < down["at"]:
+                continue    # pending when the application shut the agent down: its completion is not demanded
             if n_close == 0:
                 viol.append(V("span-never-closed:%s" % shape, "span %s opened at event %d by %s" % (sp["name"], oseq, oth)))
                 continue
@@ -374,6 +407,8 @@ def execute(s, ch):
                 rec_t = next((t for t in k.threads if t.name == tname), None)
                 ts = rec_t.clock_log[idx] if rec_t is not None and idx is not None and idx < len(rec_t.clock_log) else None
                 got = [x for x in mine if x[2].ts_nanos == ts]
+                if not got and down["at"] is not None and th == down["thread"] and seq < down["at"]:
+                    continue    # pending when the application shut the agent down: its completion is not demanded
                 if len(got) != 1:
                     viol.append(V("deferred-snapshot-sent-%d-times:%s" % (len(got), shape),
                                   "opening event %d (%s %s:%d) in %s" % (seq, event, func, line, th)))
